@@ -39,10 +39,15 @@ type I3 interface {
 	M2()
 }
 
+// E0 has an empty method set: every mapped type implements it. (Only asked for on plain injector chains: the request
+// scope of a Flame holds values of its own - context, writer, request, logger - that implement it as well.)
+type E0 interface{}
+
 var injTypes = map[string]reflect.Type{
 	"T1": reflect.TypeOf(T1{}), "PT1": reflect.TypeOf(&T1{}), "T2": reflect.TypeOf(T2{}), "N1": reflect.TypeOf(N1("")),
 	"CH": reflect.TypeOf((chan int)(nil)), "RCH": reflect.TypeOf((<-chan int)(nil)),
 	"I1": reflect.TypeOf((*I1)(nil)).Elem(), "I2": reflect.TypeOf((*I2)(nil)).Elem(), "I3": reflect.TypeOf((*I3)(nil)).Elem(),
+	"E0": reflect.TypeOf((*E0)(nil)).Elem(),
 }
 
 func injTypeName(s string) string {
@@ -124,7 +129,10 @@ type injCase struct {
 
 var injSigs = [][]string{
 	{}, {"T1"}, {"PT1"}, {"I1"}, {"I2"}, {"I3"}, {"N1", "CH"}, {"RCH"}, {"T1", "I2"}, {"I1", "T2", "I2"},
+	{"E0"}, {"T2", "E0"}, // plain injector chains only (injSigsFlame excludes them)
 }
+
+const injSigsFlame = 10
 
 type injRec struct {
 	calls int
@@ -187,6 +195,8 @@ type fs6 func(N1, chan int)
 type fs7 func(<-chan int) (int, string)
 type fs8 func(T1, I2)
 type fs9 func(I1, T2, I2) (int, string)
+type fs10 func(E0)
+type fs11 func(T2, E0) (int, string)
 
 func (fs0) Invoke(a []interface{}) ([]reflect.Value, error) { return fastBody(0, a) }
 func (fs1) Invoke(a []interface{}) ([]reflect.Value, error) { return fastBody(1, a) }
@@ -198,8 +208,10 @@ func (fs6) Invoke(a []interface{}) ([]reflect.Value, error) { return fastBody(6,
 func (fs7) Invoke(a []interface{}) ([]reflect.Value, error) { return fastBody(7, a) }
 func (fs8) Invoke(a []interface{}) ([]reflect.Value, error) { return fastBody(8, a) }
 func (fs9) Invoke(a []interface{}) ([]reflect.Value, error) { return fastBody(9, a) }
+func (fs10) Invoke(a []interface{}) ([]reflect.Value, error) { return fastBody(10, a) }
+func (fs11) Invoke(a []interface{}) ([]reflect.Value, error) { return fastBody(11, a) }
 
-var fastFns = []interface{}{fs0(nil), fs1(nil), fs2(nil), fs3(nil), fs4(nil), fs5(nil), fs6(nil), fs7(nil), fs8(nil), fs9(nil)}
+var fastFns = []interface{}{fs0(nil), fs1(nil), fs2(nil), fs3(nil), fs4(nil), fs5(nil), fs6(nil), fs7(nil), fs8(nil), fs9(nil), fs10(nil), fs11(nil)}
 
 type A1 struct {
 	F1 T1 `inject:"t"`
@@ -228,6 +240,8 @@ func applyOp(tm inject.TypeMapper, o injOp) {
 			tm.MapTo(v, (*I2)(nil))
 		case "I3":
 			tm.MapTo(v, (*I3)(nil))
+		case "E0":
+			tm.MapTo(v, (*E0)(nil))
 		}
 	case "Set":
 		tm.Set(injTypes[o.K], reflect.ValueOf(v))
@@ -375,16 +389,16 @@ func injRunFlame(c *injCase, tr *traceWriter) {
 			}
 		}
 	}
-	recs := make([]*injRec, len(injSigs))
-	frecs := make([]*injRec, len(injSigs))
-	for k := range injSigs {
+	recs := make([]*injRec, injSigsFlame)
+	frecs := make([]*injRec, injSigsFlame)
+	for k := range injSigs[:injSigsFlame] {
 		recs[k], frecs[k] = &injRec{}, &injRec{}
 		f.Get(fmt.Sprintf("/p%d", k), mapper, plainFn(k, recs[k]))
 		f.Get(fmt.Sprintf("/f%d", k), mapper, fastFns[k])
 	}
 	for s := 2; s <= 3; s++ {
 		cur = s
-		for k := range injSigs {
+		for k := range injSigs[:injSigsFlame] {
 			for _, fast := range []bool{false, true} {
 				rec := recs[k]
 				path := fmt.Sprintf("/p%d", k)
@@ -460,7 +474,7 @@ func injCtxProbe(tr *traceWriter) {
 func injGen(seed int64, n int, args []string, out *json.Encoder) {
 	rng := rand.New(rand.NewSource(seed))
 	conc := []string{"T1", "PT1", "T2", "N1", "CH"}
-	impl := map[string][]string{"I1": {"T1", "PT1"}, "I2": {"T1", "PT1", "T2", "N1"}, "I3": {"T1", "PT1"}}
+	impl := map[string][]string{"I1": {"T1", "PT1"}, "I2": {"T1", "PT1", "T2", "N1"}, "I3": {"T1", "PT1"}, "E0": conc}
 	for i := 0; i < n; i++ {
 		c := injCase{Parent: []int{0, 1, 1 + rng.Intn(2)}}
 		k := 1 + rng.Intn(14)
@@ -469,12 +483,12 @@ func injGen(seed int64, n int, args []string, out *json.Encoder) {
 			id := 1 + rng.Intn(9)
 			switch r := rng.Intn(13); {
 			case r >= 10:
-				c.Hist = append(c.Hist, injOp{"Lookup", s, []string{"T1", "PT1", "I1", "I2", "I3", "RCH", "N1"}[rng.Intn(7)], "", 0})
+				c.Hist = append(c.Hist, injOp{"Lookup", s, []string{"T1", "PT1", "I1", "I2", "I3", "RCH", "N1", "E0"}[rng.Intn(8)], "", 0})
 			case r < 5:
 				ct := conc[rng.Intn(len(conc))]
 				c.Hist = append(c.Hist, injOp{"Map", s, ct, ct, id})
 			case r < 9:
-				ifc := []string{"I1", "I2", "I3"}[rng.Intn(3)]
+				ifc := []string{"I1", "I2", "I3", "E0"}[rng.Intn(4)]
 				ct := impl[ifc][rng.Intn(len(impl[ifc]))]
 				c.Hist = append(c.Hist, injOp{"MapTo", s, ifc, ct, id})
 			default:
